@@ -78,9 +78,20 @@ BinOK(ln) ==
     /\ Chk("undocumented name is callable over WebSocket / documented name is missing", (ln.ws # -32601) = ln.documented)
     /\ Chk("probe with nine parameters was not rejected as invalid params", ln.documented => ln.http = -32602 /\ ln.ws = -32602)
 
+\* the documented calls of the pool binary and the number of positional parameters each declares
+BinArity == [vipnode_connect |-> 4, vipnode_update |-> 4, vipnode_peer |-> 4, vipnode_client |-> 4, vipnode_host |-> 4,
+             vipnode_ping |-> 0, pool_account |-> 1, pool_addNode |-> 4, pool_withdraw |-> 3, pool_status |-> 0]
+BinArityOK(ln) ==
+    /\ Chk("pool process died", ln.alive)
+    /\ Chk("arity probe of a name that is not documented / with another arity than the specification's",
+           ln.name \in DOMAIN BinArity /\ ln.declared = BinArity[ln.name])
+    /\ Chk("a documented call with too few / too many parameters was not rejected as invalid params",
+           ln.given # ln.declared => ln.http = -32602)
+
 Init == l = 1
 Next == /\ l <= Len(Trace)
-        /\ IF Trace[l].ev = "probe" THEN ProbeOK(Trace[l]) ELSE BinOK(Trace[l])
+        /\ IF Trace[l].ev = "probe" THEN ProbeOK(Trace[l])
+           ELSE IF Trace[l].ev = "binarity" THEN BinArityOK(Trace[l]) ELSE BinOK(Trace[l])
         /\ l' = l + 1
 Spec == Init /\ [][Next]_l
 
